@@ -155,29 +155,51 @@ def where_indices(ex, st, m, line):
     false before the first, between consecutive and after the last entry."""
     ex.trusted_used.add("numpy.where(mask)[0]: strictly increasing positions where the mask holds, none missing")
     # the same mask expression denotes the same index array (so ghost code can name the value the program computed)
+    ksmall = small_len(m.seq if not isinstance(m.seq, ZipSeq) else m.seq.a) if lit(m.n) is None else lit(m.n)
+    if ksmall is not None and ksmall <= 4:
+        return _where_indices(ex, st, m, line)        # closed form, specialised to what the path already knows (not memoised)
     jc = z3.Int("where_canon_j")
     key = (m.cond(jc).sexpr(), m.n.sexpr() if z3.is_expr(m.n) else str(m.n))
     memo = ex.__dict__.setdefault("_where_memo", {})
     if key in memo:
-        return memo[key]
+        out, facts = memo[key]
+        have = {f.get_id() for f in st.pc}
+        for f in facts:                      # the defining facts belong to every path that mentions the value
+            if f.get_id() not in have:
+                st.assume(f)
+        return out
+    n0 = len(st.pc)
     out = _where_indices(ex, st, m, line)
-    memo[key] = out
+    memo[key] = (out, list(st.pc[n0:]))
     return out
 
 
+def small_len(x):
+    """literal length, or the static bound of a short sequence (<= 4) whose length is symbolic."""
+    k = lit(x.n)
+    if k is not None:
+        return k
+    return getattr(x, "maxlen", None)
+
+
 def _where_indices(ex, st, m, line):
-    k = lit(m.n)
+    k = small_len(m.seq if not isinstance(m.seq, ZipSeq) else m.seq.a) if lit(m.n) is None else lit(m.n)
     if k is not None and k <= 4:
-        conds = [m.cond(j) for j in range(k)]
+        conds = [z3.And(j < m.n, m.cond(j)) if lit(m.n) is None else m.cond(j) for j in range(k)]
+        for j in range(k):                   # use what the path condition already decides (keeps later arithmetic linear)
+            if ex.implied(st, conds[j], 800):
+                conds[j] = z3.BoolVal(True)
+            elif ex.implied(st, z3.Not(conds[j]), 800):
+                conds[j] = z3.BoolVal(False)
         cnt = iv(0)
         for c in conds:
-            cnt = cnt + z3.If(c, 1, 0)
+            cnt = z3.simplify(cnt + z3.If(c, 1, 0))
         out = fresh_seq("where", "nd", "int", n=z3.simplify(cnt), dtype="int")
         rank = iv(0)
         for j in range(k):
-            st.assume(z3.Implies(conds[j], out.arr[rank] == j))
-            rank = rank + z3.If(conds[j], 1, 0)
-        out.live_of = m
+            st.assume(z3.simplify(z3.Implies(conds[j], out.arr[rank] == j)))
+            rank = z3.simplify(rank + z3.If(conds[j], 1, 0))
+        out.maxlen = k
         return out
     out = fresh_seq("where", "nd", "int", dtype="int")
     st.assume(z3.And(out.n >= 0, out.n <= m.n))
@@ -234,4 +256,28 @@ def np_array(ex, e, st):
     out = Seq("nd", v.elem, v.arr, v.n, v.start, v.delta, dtype="int")
     if "dtype" not in kw:
         out.float_if_empty = True
+    return out
+
+
+@lib("argsort")
+def np_argsort(ex, e, st):
+    """numpy.argsort of <= 4 DISTINCT values: out[rank(i)] = i where rank(i) = number of smaller values (distinctness is an obligation:
+    the order of equal keys is not specified)."""
+    ex.trusted_used.add("numpy.argsort (<= 4 distinct values): the permutation that sorts")
+    v = ex.ev(e.args[0], st)
+    k = small_len(v) if isinstance(v, Seq) else None
+    if k is None or k > 4:
+        raise U("argsort of a long or non-array value")
+    inr = [(j < v.n) if lit(v.n) is None else z3.BoolVal(True) for j in range(k)]
+    distinct = z3.And(*[z3.Implies(z3.And(inr[i], inr[j]), v.at(i) != v.at(j)) for i in range(k) for j in range(i + 1, k)]) if k > 1 else z3.BoolVal(True)
+    ex.prove(st, f"argsort-distinct-keys:{ex.ordinal('argsort')}", distinct, e.lineno)
+    st.assume(distinct)
+    out = fresh_seq("argsort", "nd", "int", n=v.n, dtype="int")
+    out.maxlen = k
+    for i in range(k):
+        rank = iv(0)
+        for j in range(k):
+            if j != i:
+                rank = rank + z3.If(z3.And(inr[j], v.at(j) < v.at(i)), 1, 0)
+        st.assume(z3.Implies(inr[i], out.arr[rank] == i))
     return out
